@@ -3,7 +3,12 @@ run TLC in a scratch copy of spec/, run harness jobs."""
 import os, subprocess, shutil, json, tempfile, re, time, sys
 V = os.path.dirname(os.path.dirname(os.path.abspath(__file__)))
 WORK = os.path.join(V, ".work")
-BIN = os.path.join(WORK, "bin", "sipspv")
+# VERIF_REPO: evaluate the checks against another checkout (seeded-mutant campaigns run in scratch worktrees, in
+# parallel, without touching /repo).  Default and registered use: /repo itself.
+REPO = os.environ.get("VERIF_REPO", "/repo")
+ALT = os.path.abspath(REPO) != "/repo"
+import hashlib
+BIN = os.path.join(WORK, "bin", "sipspv" + ("-" + hashlib.md5(REPO.encode()).hexdigest()[:8] if ALT else ""))
 ENV = dict(os.environ, GOFLAGS="-mod=mod", GOPROXY="off", GOSUMDB="off", GOTOOLCHAIN="local",
            GOCACHE=os.environ.get("GOCACHE", os.path.join(WORK, "gocache")))
 JAVA_CP = "/opt/veriftools/tla/tla2tools.jar:/opt/veriftools/tla/CommunityModules-deps.jar"
@@ -14,7 +19,13 @@ class Machinery(Exception):
 def build_harness():
     os.makedirs(os.path.dirname(BIN), exist_ok=True)
     h = os.path.join(V, "harness")
-    shutil.copy("/repo/go.sum", os.path.join(h, "go.sum"))
+    if ALT:
+        h2 = os.path.join(WORK, "harness-" + os.path.basename(BIN))
+        shutil.rmtree(h2, ignore_errors=True); shutil.copytree(h, h2)
+        gm = open(os.path.join(h2, "go.mod")).read().replace("=> /repo", "=> " + os.path.abspath(REPO))
+        open(os.path.join(h2, "go.mod"), "w").write(gm)
+        h = h2
+    shutil.copy(os.path.join(REPO, "go.sum"), os.path.join(h, "go.sum"))
     tmp = BIN + ".%d" % os.getpid()
     p = subprocess.run(["go", "build", "-tags", "verif", "-o", tmp, "."], cwd=h, env=ENV,
                        stdout=subprocess.PIPE, stderr=subprocess.STDOUT, text=True)
